@@ -89,7 +89,7 @@ fn op_unsigned(op: &str, form: &str, a: u64, b: u64) -> Option<String> {
         }
         ("to_signed", "fn") => match x.to_signed() {
             Ok(s) => format!("OK {}", s.as_pico()),
-            Err(_) => "ERR".to_string(),
+            Err(e) => crate::err_shown(&e),
         },
         _ => return None,
     })
@@ -141,7 +141,7 @@ fn op_signed(op: &str, form: &str, a: i64, b: i64) -> Option<String> {
         }
         ("to_unsigned", "fn") => match x.to_unsigned() {
             Ok(s) => format!("OK {}", s.as_pico()),
-            Err(_) => "ERR".to_string(),
+            Err(e) => crate::err_shown(&e),
         },
         ("positive_sub", "fn") => opt_s(x.positive_sub(SignedAmount::from_pico(b))),
         ("checked_abs", "fn") => opt_s(x.checked_abs()),
@@ -170,7 +170,7 @@ pub fn run(op: &str, args: &[&str]) -> Option<String> {
                     };
                     Some(match r {
                         Ok(a) => format!("OK {}", a.as_pico()),
-                        Err(_) => "ERR".to_string(),
+                        Err(e) => crate::err_shown(&e),
                     })
                 }
                 "s" => {
@@ -185,7 +185,7 @@ pub fn run(op: &str, args: &[&str]) -> Option<String> {
                     };
                     Some(match r {
                         Ok(a) => format!("OK {}", a.as_pico()),
-                        Err(_) => "ERR".to_string(),
+                        Err(e) => crate::err_shown(&e),
                     })
                 }
                 _ => None,
